@@ -1,9 +1,11 @@
 //! Known_C01 - the Rust twin of Model/KnownC01.v `known_c01` (used by c01.rs and, without a base, by the
 //! href setter of c07.rs).  The classes are the EXACT exclusions of the proved class theorems of C01:
 //!   1 the file scheme is involved (effective scheme `file`), except scheme-less references that are
-//!     empty or start with '?' / '#', and except "file:" R with no base or a base whose scheme is not
-//!     file when R is inside the recogniser `k_file_ok` of the proved file class (C01_known_file_exact,
-//!     C01_statement_all2); `known_c01_v1` is the predicate before that narrowing;
+//!     empty or start with '?' / '#', and except - when R is inside the recogniser `k_file_ok` of the
+//!     proved file class (C01_known_file_exact) - "file:" R with no base or a base whose scheme is not
+//!     file, "file:" R against a file base when R starts with two '/' '\', and a scheme-less R that starts
+//!     with two '/' '\' against a file base (C01_statement_all3); `known_c01_v1` is the predicate before
+//!     any narrowing;
 //!   2 a ".." (any spelling) would pop a drive-letter-shaped segment in the path the Standard's path
 //!     state builds (F-C01-9: parser.rs never pops such a segment, in any scheme);
 //!   3 non-special authority: a port number <= 65535 directly followed by '\' (F-C01-8);
@@ -288,15 +290,21 @@ pub fn k_file_ok(r: &[char]) -> bool {
         kf_ok(false, r, r)
     }
 }
-/// "file:" R with no base or a base with another scheme, R inside the proved class
+fn k_two_sl(r: &[char]) -> bool {
+    r.len() >= 2 && is_sl(r[0]) && is_sl(r[1])
+}
+/// R inside the proved file class and: "file:" R with no base or a base with another scheme; "file:" R against
+/// a file base when R starts with two separators; a scheme-less R that starts with two separators against a
+/// file base (Model/KnownC01.v k_file_narrow)
 fn file_narrow(base: Option<&KBase>, input: &str) -> bool {
     let t = cleaned(input);
     match leading_scheme(&t) {
         Some(s) => {
             let p = t.iter().position(|&c| c == ':').map(|p| p + 1).unwrap_or(t.len());
-            s == "file" && base.map_or(true, |b| b.scheme != "file") && k_file_ok(&t[p..])
+            let r = &t[p..];
+            s == "file" && base.map_or(true, |b| b.scheme != "file" || k_two_sl(r)) && k_file_ok(r)
         }
-        None => false,
+        None => base.map_or(false, |b| b.scheme == "file" && !b.cannot_be_a_base && k_two_sl(&t) && k_file_ok(&t)),
     }
 }
 
